@@ -164,6 +164,13 @@ class TcpConnection(
             else:
                 self._remote_hostinfo = (server_name, self._remote_hostinfo[1])
 
+        if self._ctx._tokenmanager is None:
+            # The context was shut down while this connection was being
+            # established: nothing may be sent any more, and nobody would
+            # release the connection later.
+            transport.abort()
+            return
+
         self._send_initial_csm()
 
     def connection_lost(self, exc):
@@ -418,6 +425,10 @@ class TCPClient(_TCPPooling, interfaces.TokenInterface):
             ) from e
         except OSError as e:
             raise error.NetworkError("Connection failed to %r" % host) from e
+
+        if self._tokenmanager is None:
+            # shut down while connecting (the connection has seen to itself)
+            raise error.LibraryShutdown()
 
         self._pool[(host, port)] = protocol
 
